@@ -5,10 +5,11 @@ From Coq Require Import List NArith ZArith Bool.
 From MPS Require Import Model.Bytes Model.Framing Model.Session Proofs.SessionProofs.
 Import ListNotations.
 
-(* NewSession accepts exactly: pairwise distinct ids, self among them, 0 <= t <= min(n-1, 2^32-1) -- any n, any order *)
+(* NewSession accepts exactly: pairwise distinct, non-empty ids that are non-zero evaluation points, self among them,
+   0 <= t <= min(n-1, 2^32-1) -- any n, any order *)
 Theorem C20_new_session_ok_iff : forall p,
   new_session_ok p = true <->
-  NoDup (sp_ids p) /\ In (sp_self p) (sp_ids p) /\
+  NoDup (sp_ids p) /\ (forall id, In id (sp_ids p) -> id_ok (sp_group p) id = true) /\ In (sp_self p) (sp_ids p) /\
   (0 <= sp_thr p <= max_uint32)%Z /\ (sp_thr p <= Z.of_nat (length (sp_ids p)) - 1)%Z.
 Proof. exact new_session_ok_iff. Qed.
 Print Assumptions C20_new_session_ok_iff.
